@@ -14,6 +14,37 @@ from .gfi import is_where
 SELF = ("param", "self")
 
 
+def final_pair(node):
+    """Roles of the two containers a function returns, read from its last `return (A', B')` (through one temporary): each element is
+    `C`, `C or None`, `C if C else None` or `C if F else None`; -> [(container name, flag name or None), (…)] or None."""
+    import ast
+    last = None
+    for st in node.body:
+        if isinstance(st, ast.Return) and st.value is not None:
+            last = st
+    if last is None:
+        return None
+    v = last.value
+    if isinstance(v, ast.Name):
+        for st in node.body:
+            if isinstance(st, ast.Assign) and len(st.targets) == 1 and isinstance(st.targets[0], ast.Name) and st.targets[0].id == v.id:
+                v = st.value
+    if not (isinstance(v, ast.Tuple) and len(v.elts) == 2):
+        return None
+    out = []
+    for e in v.elts:
+        if isinstance(e, ast.Name):
+            out.append((e.id, None))
+        elif isinstance(e, ast.BoolOp) and isinstance(e.op, ast.Or) and len(e.values) == 2 and isinstance(e.values[0], ast.Name) \
+                and isinstance(e.values[1], ast.Constant) and e.values[1].value is None:
+            out.append((e.values[0].id, e.values[0].id))
+        elif isinstance(e, ast.IfExp) and isinstance(e.body, ast.Name) and isinstance(e.test, ast.Name) and isinstance(e.orelse, ast.Constant) and e.orelse.value is None:
+            out.append((e.body.id, e.test.id))
+        else:
+            return None
+    return out
+
+
 def loop_rows(s, kinds=("store", "assign")):
     """[(kind, name, value, guards-without-loop-marker)] for events inside the (single) loop of the summary."""
     rows = []
@@ -65,6 +96,12 @@ def fn_merge_table(ctx, rule="TABLE-Fn.merge"):
     construct = "core.Fn.merge"
     X, X_, CK = ("param", "x"), ("param", "x_"), ("param", "check")
     rows = loop_rows(s, kinds=("store",))
+    # the two containers by role (what the function returns), whatever they are called
+    kind_, node_, mod_, owner_ = ctx.p.get_function(dotted)
+    fp = final_pair(node_)
+    if fp is not None and fp[0][0] != fp[1][0]:
+        ren = {fp[0][0]: "result", fp[1][0]: "discarded"}
+        rows = [(k, ren.get(b, b), v, gg, t) for k, b, v, gg, t in rows]
     keys = {r[4][2] for r in rows if r[4] is not None and r[4][0] == "idx"}
     if len(keys) != 1:
         raise AnalysisError(f"{construct}: stores are not keyed by one loop key ({len(keys)} keys)")
@@ -176,10 +213,9 @@ def fn_merge_table(ctx, rule="TABLE-Fn.merge"):
     else:
         ctx.ok(rule, construct, f"{ncase} key-membership/dict/check cases: x_ wins conflicts and x is discarded, where(check, x, x_) with a check, one-sided keys copied, nested dicts merged recursively")
     # return: discarded or None
-    kind, node, mod, owner = ctx.p.get_function(dotted)
-    import ast
-    rets = [ast.unparse(r.value) for r in ast.walk(node) if isinstance(r, ast.Return) and r.value is not None]
-    if not any(x.replace(" ", "") in ("(result,discardedifdiscardedelseNone)", "(result,discardedorNone)") for x in rets):
+    if not (fp is not None and fp[0][1] is None and fp[1][1] == fp[1][0]):
+        import ast
+        rets = [ast.unparse(r.value) for r in ast.walk(node_) if isinstance(r, ast.Return) and r.value is not None]
         ctx.bad(rule, construct, "returns (result, discarded or None)", f"found {rets}", loc)
 
 
@@ -191,6 +227,22 @@ def fn_filter_table(ctx, rule="TABLE-Fn.filter"):
     construct = "core.Fn.filter"
     X, SELN = ("param", "x"), ("param", "selection")
     rows = loop_rows(s)
+    # containers and presence flags by role (read from what the function returns), whatever they are called
+    kind_, node_, mod_, owner_ = ctx.p.get_function(dotted)
+    fp = None
+    for sub_ in [node_] + [n_ for n_ in node_.body if hasattr(n_, "body")]:
+        pass
+    import ast as _ast
+    # the final return may sit after an early `if not x: return …` guard: take the function's last top-level return
+    fp = final_pair(node_)
+    ret_ok = fp is not None and fp[0][0] != fp[1][0] and all(t is not None for _, t in fp)
+    if ret_ok:
+        ren = {fp[0][0]: "selected", fp[1][0]: "unselected"}
+        if fp[0][1] != fp[0][0]:
+            ren[fp[0][1]] = "found_selected"
+        if fp[1][1] != fp[1][0]:
+            ren[fp[1][1]] = "found_unselected"
+        rows = [(k, ren.get(b, b), v, gg, t) for k, b, v, gg, t in rows]
     stores = [r for r in rows if r[0] == "store"]
     keys = {r[4][2] for r in stores if r[4][0] == "idx"}
     if len(keys) != 1:
@@ -307,12 +359,9 @@ def fn_filter_table(ctx, rule="TABLE-Fn.filter"):
                 "(sel(('x','y')) with leaf 'x': filter selects it, regenerate does not resample it)", loc)
     else:
         ctx.ok("SIB-leaf-decision", construct + " (leaf)")
-    kind, node, mod, owner = ctx.p.get_function(dotted)
-    import ast
-    rets = [ast.unparse(r.value).replace(" ", "") for r in ast.walk(node) if isinstance(r, ast.Return) and r.value is not None and isinstance(r.value, ast.Tuple)]
-    ok_ret = {"(selectediffound_selectedelseNone,unselectediffound_unselectedelseNone)", "(selectedorNone,unselectedorNone)",
-              "(selectedifselectedelseNone,unselectedifunselectedelseNone)"}
-    if not any(r in ok_ret for r in rets):
+    if not ret_ok:
+        import ast
+        rets = [ast.unparse(r.value).replace(" ", "") for r in ast.walk(node_) if isinstance(r, ast.Return) and r.value is not None and isinstance(r.value, ast.Tuple)]
         problems.append(f"final return pairs each part with its own emptiness test (found {rets})")
     if not {"selected", "unselected"} <= {r[1] for r in stores}:
         raise AnalysisError(f"{construct}: selected/unselected containers not recognised")
